@@ -19,12 +19,12 @@ import (
 type CPUCell struct {
 	Opcode  int
 	M, X, E int
-	Intr    int  // value of the Interrupt field at entry
-	IntrIdx int  // 0 = none pending, 1.. = index into the interrupt constants Step tests
-	Stopped int  // -1 symbolic, 0 false, 1 true
-	Op1     int  // -1: operand byte 1 symbolic, else fixed
-	DLZero  int  // -1 symbolic; 1: low byte of RD is zero; 0: non-zero
-	Dec     int  // 0: decimal flag symbolic; 1: D=0 (binary arithmetic); 2: D=1
+	Intr    int // value of the Interrupt field at entry
+	IntrIdx int // 0 = none pending, 1.. = index into the interrupt constants Step tests
+	Stopped int // -1 symbolic, 0 false, 1 true
+	Op1     int // -1: operand byte 1 symbolic, else fixed
+	DLZero  int // -1 symbolic; 1: low byte of RD is zero; 0: non-zero
+	Dec     int // 0: decimal flag symbolic; 1: D=0 (binary arithmetic); 2: D=1
 }
 
 func (c CPUCell) String() string {
@@ -69,7 +69,7 @@ type CellResult struct {
 	Steps      int
 	Fetched    bool
 	Conds      map[string]*absint.Bool // gate key -> comparison, for the gated merges in this result
-	Branches   []*absint.Bool // conditions of undecided branches, in traversal order
+	Branches   []*absint.Bool          // conditions of undecided branches, in traversal order
 	BranchFns  []*ssa.Function
 }
 
